@@ -233,6 +233,11 @@ class InjectedFault(Exception):
     """Raised by simulator-owned stubs according to the fault plan."""
 
 
+class InjectedTypeError(InjectedFault, TypeError):
+    """an injected fault that is also a TypeError (what a context function of the wrong
+    arity, or a variable bound to None, would raise)"""
+
+
 class InjectedInterrupt(BaseException):
     """Asynchronous interrupt raised from a trace hook at a chosen line."""
 
